@@ -12,9 +12,10 @@
      * for a non-empty neighbourhood the expectations are those of a FRESHLY CONSTRUCTED learning policy
        trained on exactly the selected observations (context-free policies other than Thompson Sampling; for
        Thompson Sampling the same holds up to the unused stored sample, see NbrIndep.fit_query_indep).
-    ..._partial: linear learning policies under a neighbourhood are covered by the correspondence only. *)
-From Coq Require Import List ZArith Bool Arith QArith Qcanon.
-From MW Require Import Num Assoc AssocFacts Rng Par CF CFInv CFClean CFForget CFSpec Matrix Lin Warm WarmInv Nbr NbrFacts NbrIndep Clu Tree Mab FacadeCF FacadeArms NumLaws QcInst.
+     * linear learning policies: the row's answer is that of [lin_strip c], the constructor's state keeping only the private
+       generator copies (never read by LinGreedy / LinUCB), trained on the selected observations (nn_row_from_scratch_linear). *)
+From Coq Require Import List ZArith Bool Arith QArith Qcanon Permutation.
+From MW Require Import Num Assoc AssocFacts Rng Par CF CFInv CFClean CFForget CFSpec Matrix Lin Warm WarmInv Nbr NbrFacts NbrIndep LshFacts Clu Tree CellFacts Mab FacadeCF FacadeArms MoreFacts NumLaws CFAlg Sim Extra QcInst OrderFacts ExpIrrel LinInv FacadeLin LpInv NbrInv CluTreeInv FacadeAll ToyFacts C09All C10All LinForget LinSim MatrixFacts GaussJordan LinSpec NbrIndepGen CluIndep C17Lin WarmIdem.
 Import ListNotations.
 
 Theorem C03_radius_neighbourhood_is_closed_ball :
@@ -96,6 +97,14 @@ Theorem C03_expectations_of_policy_trained_from_scratch_partial :
      Some (inr (map (fun kv : A * R => (fst kv, Some (snd kv))) (hd [] e)), l').
 Proof. exact @nn_expectations_from_scratch. Qed.
 Print Assumptions C03_expectations_of_policy_trained_from_scratch_partial.
+
+Theorem C03_linear_policy_trained_from_scratch :
+  forall (R A G : Type) (N : Num R) (aeqb : A -> A -> bool) (RG : RngOps R G) 
+    (s : (@nbr R A G)) (c : (@lin R A G)) (seed : Z) (row : list R) (orc : list nat) (p : bool),
+  nbr_row N aeqb RG s (LLin c) seed row orc p = nbr_row N aeqb RG s (LLin (lin_strip c)) seed row orc p \/
+  (exists idx : list nat, neighborhood N s row orc = Some idx /\ idx = []).
+Proof. exact @nn_row_from_scratch_linear. Qed.
+Print Assumptions C03_linear_policy_trained_from_scratch.
 
 (* non-vacuity: a Radius bandit over the rationals, cityblock metric, radius 2; the stored row at distance
    exactly 2 is selected, the one at distance 3 is not *)
